@@ -260,7 +260,7 @@ def search(acc: Acc, tier, shard, nshards):
         counter["i"] += 1
         forbid = ch.choice(['"', "'"])
         prof = model.Profile(max_depth=4, max_items=7, forbid=forbid, lookalike_multi=False, kv_roots=False)
-        doc = model.Gen(ch, prof).document()
+        doc = model.any_document(model.Gen(ch, prof))
         src = ch.choice(["loads", "loads", "dict_api"])
         if src == "loads":
             text = render.render(doc).text
